@@ -387,6 +387,16 @@ def run(eng, ctx, layout_only=False):
                         want_comp = {tc["PRN"]: None, tc["CELPRN"]: 0, tc["CELSIG"]: 1}[typ]
                         ctx.check(okc and comp == want_comp, "C09.D2", sf.qualname, f"value of derived type {typ}", expected=f"map[index[0]]" + ("" if want_comp is None else f"[{want_comp}]"),
                                   found=show(leaf)[:80], **eng.loc(sf, e.node))
+                        if okc:
+                            # the field the consumer reads is the one the map builder fills: the scan's container itself, or a field the container object is stored in
+                            fname = base[1][1]
+                            mm = model.get(sat_field if typ == tc["PRN"] else cell_field)
+                            if mm is not None and mm.get("cont") is not None:
+                                direct = mm["cont"] == "self." + fname
+                                pre_c = (loops.get(scans[sat_field if typ == tc["PRN"] else cell_field]["loop"][0], {}).get("pre") or {}).get(mm["cont"])
+                                stored = [x for x in se.effects if x.kind == "store" and x.target == ("self", fname) and not x.loops and (x.term == pre_c or (x.term[0] in ("loop", "loopout") and x.term[2] == mm["cont"]))]
+                                ctx.check(direct or bool(stored), "C09.D2", mb.qualname, f"map read for derived type {typ}", expected=f"self.{fname} is the container the scan fills (filled in place, or the filled dict is stored there)",
+                                          found=f"the scan fills `{mm['cont']}`, which is never stored in self.{fname}", **eng.loc(mb, mb.node))
     ctx.instance("derived-label consumers", ncons, 3)
 
     # ------------------------------------------------------------ D3 tables vs standard
